@@ -1,27 +1,96 @@
-// fuzz/dms: DMS::Decode on arbitrary bytes.  Oracle: returns a value or throws GeographicErr only;
-// an accepted string re-encodes (Encode at max precision) to a string that decodes to the same value/flag.
+// fuzz/dms: DMS::Decode / DecodeAngle / DecodeAzimuth / DecodeLatLon on arbitrary bytes.
+// Oracles: (1) returns a value or throws GeographicErr only, the flag is untouched when it throws;
+// (2) differential against the reference acceptor written from DMS.hpp (ref/dms_ref.hpp): INVALID => must throw,
+//     VALID => must return the reference value and flag, UNSPEC (documentation silent) => either;
+// (3) an accepted value re-encodes (Encode at 12 digits of seconds) to a string that decodes to the same value/flag;
+// (4) DecodeAngle / DecodeAzimuth / DecodeLatLon (input split at the first '|') agree with Decode and the documented rules,
+//     lat/lon untouched when DecodeLatLon throws.
 #include <cmath>
 #include <string>
 #include <GeographicLib/DMS.hpp>
 #include "fw/fuzz.hpp"
+#include "ref/dms_ref.hpp"
 using namespace GeographicLib;
+typedef long double L;
+
+namespace {
+struct Dec { bool ok = false; double v = 0; DMS::flag f = DMS::NONE; };
+Dec dec(const std::string& s, const std::string& show) {
+  Dec d; DMS::flag ind = DMS::flag(7);
+  try { d.v = DMS::Decode(s, ind); d.ok = true; d.f = ind; }
+  catch (const GeographicErr&) { if (ind != DMS::flag(7)) vf::fz_fail("Decode changed the flag although it threw", show); }
+  catch (const std::exception& e) { vf::fz_fail(std::string("exception of another type: ") + e.what(), show); }
+  return d;
+}
+bool same(double a, double b) { return std::isnan(a) ? std::isnan(b) : a == b; }
+}  // namespace
 
 extern "C" int LLVMFuzzerTestOneInput(const uint8_t* data, size_t size) {
-  std::string s((const char*)data, size);
-  DMS::flag ind = DMS::NONE; double v = 0; bool ok = false; std::string cls = "rejected";
-  try { v = DMS::Decode(s, ind); ok = true; cls = "accepted"; }
-  catch (const GeographicErr&) {}
-  catch (const std::exception& e) { vf::fz_fail(std::string("exception of another type: ") + e.what(), vf::fz_show(s)); }
-  vf::fz_case(data, size, size >= 3, cls, vf::fz_show(s));
-  if (ok && std::isfinite(v) && std::fabs(v) < 1e9) {
+  std::string all((const char*)data, size), show = vf::fz_show(all);
+  size_t bar = all.find('|');
+  std::string s = all.substr(0, bar), s2 = bar == std::string::npos ? std::string() : all.substr(bar + 1);
+  Dec d = dec(s, show);
+  dmsref::Res R = dmsref::decode(s);
+  static const char* cn[] = {"ref-valid", "ref-invalid", "ref-unspec"};
+  vf::fz_case(data, size, size >= 3, std::string(d.ok ? "accepted " : "rejected ") + cn[R.cls], show);
+  const double eps = 2.220446049250313e-16;
+  if (R.cls == dmsref::INVALID && d.ok)
+    vf::fz_fail("malformed string accepted (" + R.why + "): value " + std::to_string(d.v), show);
+  if (R.cls == dmsref::VALID) {
+    if (!d.ok) vf::fz_fail("legal string rejected", show);
+    bool okv = std::isnan((double)R.value) ? std::isnan(d.v) : std::isinf((double)R.value) ? d.v == (double)R.value
+               : fabsl((L)d.v - R.value) <= 10 * eps * R.sumabs + 1e-320L;
+    if (!okv || (int)d.f != R.flag)
+      vf::fz_fail("value/flag differ from the reference: " + std::to_string(d.v) + "/" + std::to_string((int)d.f) + " vs " + std::to_string((double)R.value) + "/" + std::to_string(R.flag), show);
+  }
+  // (3) re-encode
+  if (d.ok && std::isfinite(d.v) && std::fabs(d.v) < 1e9) {
     try {
-      std::string t = DMS::Encode(v, DMS::SECOND, 12, ind);
+      std::string t = DMS::Encode(d.v, DMS::SECOND, 12, d.f);
       DMS::flag ind2; double w = DMS::Decode(t, ind2);
-      double tolv = std::max(4e-16 * std::fabs(v), 0.5e-12 / 3600) * 1.01 + 4 * 2.3e-16 * std::fabs(v);
-      if (!(std::fabs(w - v) <= tolv) || (ind != DMS::NONE && ind2 != ind))
-        vf::fz_fail("Decode(Encode(Decode(s))) differs: " + std::to_string(v) + " vs " + std::to_string(w) + " via " + t, vf::fz_show(s));
+      // Encode limits seconds to 11 decimals (15 - 2*SECOND): half a unit of the last printed digit is 0.5e-11"
+      double tolv = std::max(4e-16 * std::fabs(d.v), 0.5e-11 / 3600) * 1.01 + 4 * 2.3e-16 * std::fabs(d.v);
+      if (!(std::fabs(w - d.v) <= tolv) || ind2 != d.f)
+        vf::fz_fail("Decode(Encode(Decode(s))) differs: " + std::to_string(d.v) + " vs " + std::to_string(w) + " via " + t, show);
     } catch (const GeographicErr& e) {
-      vf::fz_fail(std::string("Encode/Decode of an accepted value threw: ") + e.what(), vf::fz_show(s));
+      vf::fz_fail(std::string("Encode/Decode of an accepted value threw: ") + e.what(), show);
+    }
+  }
+  // (4) DecodeAngle, DecodeAzimuth
+  try {
+    double a = DMS::DecodeAngle(s);
+    if (!d.ok || d.f != DMS::NONE || !same(a, d.v)) vf::fz_fail("DecodeAngle inconsistent with Decode", show);
+  } catch (const GeographicErr&) { if (d.ok && d.f == DMS::NONE) vf::fz_fail("DecodeAngle rejected what Decode accepts without hemisphere", show); }
+  catch (const std::exception& e) { vf::fz_fail(std::string("DecodeAngle: exception of another type: ") + e.what(), show); }
+  try {
+    double a = DMS::DecodeAzimuth(s);
+    if (!d.ok || d.f == DMS::LATITUDE) vf::fz_fail("DecodeAzimuth accepted a malformed string or a N/S designator", show);
+    if (std::isfinite(d.v)) {
+      if (!(std::fabs(a) <= 180) || std::fabs(std::remainder(a - std::remainder(d.v, 360.0), 360.0)) > 4 * eps * 360)
+        vf::fz_fail("DecodeAzimuth not the reduction of Decode to [-180,180]: " + std::to_string(a), show);
+    } else if (!std::isnan(a)) vf::fz_fail("DecodeAzimuth of a non-finite value is not NaN", show);
+  } catch (const GeographicErr&) { if (d.ok && d.f != DMS::LATITUDE) vf::fz_fail("DecodeAzimuth rejected a legal azimuth", show); }
+  catch (const std::exception& e) { vf::fz_fail(std::string("DecodeAzimuth: exception of another type: ") + e.what(), show); }
+  // DecodeLatLon on the two halves
+  if (bar != std::string::npos) {
+    Dec e = dec(s2, show);
+    for (int lf = 0; lf < 2; ++lf) {
+      double lat = 1234.5, lon = -6789.25; bool thr = false;
+      try { DMS::DecodeLatLon(s, s2, lat, lon, lf != 0); }
+      catch (const GeographicErr&) { thr = true; }
+      catch (const std::exception& x) { vf::fz_fail(std::string("DecodeLatLon: exception of another type: ") + x.what(), show); }
+      int fa = d.f, fb = e.f;
+      if (fa == 0 && fb == 0) { fa = lf ? 2 : 1; fb = lf ? 1 : 2; } else if (fa == 0) fa = 3 - fb; else if (fb == 0) fb = 3 - fa;
+      bool legal = d.ok && e.ok && fa != fb;
+      double elat = fa == 1 ? d.v : e.v, elon = fa == 1 ? e.v : d.v;
+      if (legal && std::fabs(elat) > 90) legal = false;
+      if (thr) {
+        if (legal) vf::fz_fail("DecodeLatLon rejected a legal pair", show);
+        if (lat != 1234.5 || lon != -6789.25) vf::fz_fail("DecodeLatLon changed lat/lon although it threw", show);
+      } else {
+        if (!legal) vf::fz_fail("DecodeLatLon accepted an illegal pair", show);
+        if (!same(lat, elat) || !same(lon, elon)) vf::fz_fail("DecodeLatLon ordering: got " + std::to_string(lat) + "," + std::to_string(lon), show);
+      }
     }
   }
   return 0;
